@@ -187,5 +187,155 @@ theorem processO_eq (q : Json) : processO q = .ok (process q) := by
       obtain ⟨kvs, sec, _, hwf, _, hi⟩ := plan_wf hp
       simp only [expandO_eq p _ hwf, hi]
 
+/-! ### generated queries as maps: last writer wins -/
+
+open Json (lookup insertKv)
+
+@[simp] theorem lookup_nil (k : String) : lookup [] k = none := rfl
+
+theorem lookup_cons (a : String) (x : Json) (r : List (String × Json)) (k : String) :
+    lookup ((a, x) :: r) k = if a = k then some x else lookup r k := by
+  unfold lookup
+  rw [List.find?_cons]
+  by_cases h : a = k
+  · simp [h]
+  · have : (a == k) = false := by simpa using h
+    simp [h, this]
+
+theorem lookup_append (l r : List (String × Json)) (k : String) :
+    lookup (l ++ r) k = match lookup l k with | some v => some v | none => lookup r k := by
+  induction l with
+  | nil => simp
+  | cons a l ih =>
+    obtain ⟨a, x⟩ := a
+    by_cases h : a = k <;> simp [lookup_cons, h, ih]
+
+theorem lookup_eq_none_iff (l : List (String × Json)) (k : String) :
+    lookup l k = none ↔ k ∉ l.map (·.1) := by
+  induction l with
+  | nil => simp
+  | cons a l ih =>
+    obtain ⟨a, x⟩ := a
+    by_cases h : a = k
+    · simp [lookup_cons, h]
+    · have h' : ¬ k = a := fun e => h e.symm
+      simp only [lookup_cons, h, if_false, ih, List.map_cons, List.mem_cons, h', false_or]
+
+theorem lookup_of_not_any (r : List (String × Json)) (k : String)
+    (h : (r.any fun p => p.1 == k) = false) : lookup r k = none := by
+  rw [lookup_eq_none_iff]
+  intro hm
+  obtain ⟨p, hp, rfl⟩ := List.mem_map.mp hm
+  have := List.any_eq_false.mp h p hp
+  simp at this
+
+theorem lookup_replace (k : String) (v : Json) (k' : String) : ∀ (r : List (String × Json)),
+    lookup (r.map (fun p => if p.1 == k then (k, v) else p)) k'
+      = if k' = k then (lookup r k).map (fun _ => v) else lookup r k'
+  | [] => by simp
+  | (a, x) :: r => by
+    have ih := lookup_replace k v k' r
+    simp only [beq_iff_eq] at ih ⊢
+    by_cases ha : a = k
+    · subst ha
+      by_cases hk : k' = a
+      · subst hk; simp [lookup_cons]
+      · have hk' : ¬ a = k' := fun e => hk e.symm
+        simp [lookup_cons, hk, hk', ih]
+    · by_cases hk : k' = k
+      · subst hk
+        simp [lookup_cons, ha, ih]
+      · simp [lookup_cons, ha, hk, ih]
+
+/-- `Map::insert` as a map: the key now holds the value, every other key is untouched -/
+theorem lookup_insertKv (kvs : List (String × Json)) (k : String) (v : Json) (k' : String) :
+    lookup (insertKv kvs k v) k' = if k' = k then some v else lookup kvs k' := by
+  unfold insertKv
+  by_cases hany : (kvs.any fun p => p.1 == k) = true
+  · simp only [hany, if_true, lookup_replace]
+    by_cases hk : k' = k
+    · have hm : k ∈ kvs.map (·.1) := by
+        obtain ⟨p, hp, hpk⟩ := List.any_eq_true.mp hany
+        exact List.mem_map.mpr ⟨p, hp, by simpa using hpk⟩
+      cases hl : lookup kvs k with
+      | none => exact absurd hm ((lookup_eq_none_iff kvs k).mp hl)
+      | some x => simp [hk]
+    · simp [hk]
+  · have hany' : (kvs.any fun p => p.1 == k) = false := Bool.eq_false_iff.mpr hany
+    have hnone := lookup_of_not_any kvs k hany'
+    simp only [hany', Bool.false_eq_true, if_false, lookup_append]
+    by_cases hk : k' = k
+    · subst hk; simp [hnone, lookup_cons]
+    · have hk' : ¬ k = k' := fun e => hk e.symm
+      cases lookup kvs k' <;> simp [lookup_cons, hk, hk']
+
+/-- `Map::insert` and the key order: an existing key keeps its place, a new key goes last -/
+theorem keys_insertKv (kvs : List (String × Json)) (k : String) (v : Json) :
+    (insertKv kvs k v).map (·.1)
+      = if k ∈ kvs.map (·.1) then kvs.map (·.1) else kvs.map (·.1) ++ [k] := by
+  unfold insertKv
+  by_cases hany : (kvs.any fun p => p.1 == k) = true
+  · have hm : k ∈ kvs.map (·.1) := by
+      obtain ⟨p, hp, hpk⟩ := List.any_eq_true.mp hany
+      exact List.mem_map.mpr ⟨p, hp, by simpa using hpk⟩
+    simp only [hany, if_true, hm, List.map_map]
+    apply List.map_congr_left
+    intro p _
+    by_cases h : p.1 = k <;> simp [h]
+  · have hm : k ∉ kvs.map (·.1) := by
+      intro hm
+      obtain ⟨p, hp, rfl⟩ := List.mem_map.mp hm
+      exact hany (List.any_eq_true.mpr ⟨p, hp, by simp⟩)
+    simp [hany, hm]
+
+/-- the writes one chosen option performs: an object key by key, anything else under the field's name -/
+def writesOf (key : String) (value : Json) : List (String × Json) :=
+  match value with
+  | .obj o => o
+  | v => [(key, v)]
+
+/-- all writes of a combination, in execution order -/
+def writes : List (String × Json) → List (String × Json)
+  | [] => []
+  | (key, value) :: r => writesOf key value ++ writes r
+
+theorem mergeKv_append : ∀ (a b kvs : List (String × Json)),
+    mergeKv kvs (a ++ b) = mergeKv (mergeKv kvs a) b
+  | [], _, _ => rfl
+  | (k, v) :: a, b, kvs => by simp [mergeKv, mergeKv_append a b]
+
+theorem applyOption_eq (kvs : List (String × Json)) (key : String) (v : Json) :
+    applyOption kvs key v = mergeKv kvs (writesOf key v) := by
+  cases v <;> simp [applyOption, writesOf, mergeKv]
+
+/-- a generated query is the initial map after a plain sequence of `insert`s -/
+theorem overlay_eq_mergeKv : ∀ (ch kvs : List (String × Json)),
+    overlay kvs ch = mergeKv kvs (writes ch)
+  | [], _ => rfl
+  | (key, value) :: r, kvs => by
+    simp [overlay, writes, mergeKv_append, applyOption_eq, overlay_eq_mergeKv r]
+
+/-- **last writer wins**: a key holds the value of the last write to it, or else what the initial
+map held -/
+theorem lookup_mergeKv : ∀ (ws kvs : List (String × Json)) (k : String),
+    lookup (mergeKv kvs ws) k
+      = match lookup ws.reverse k with | some v => some v | none => lookup kvs k
+  | [], _, _ => by simp [mergeKv]
+  | (a, v) :: r, kvs, k => by
+    rw [mergeKv, lookup_mergeKv r, List.reverse_cons, lookup_append, lookup_insertKv]
+    by_cases h : k = a
+    · subst h; cases lookup r.reverse k <;> simp [lookup_cons]
+    · have h' : ¬ a = k := fun e => h e.symm
+      cases lookup r.reverse k <;> simp [lookup_cons, h, h']
+
+theorem lookup_overlay (ch kvs : List (String × Json)) (k : String) :
+    lookup (overlay kvs ch) k
+      = match lookup (writes ch).reverse k with | some v => some v | none => lookup kvs k := by
+  rw [overlay_eq_mergeKv, lookup_mergeKv]
+
+theorem writes_append : ∀ (a b : List (String × Json)), writes (a ++ b) = writes a ++ writes b
+  | [], _ => rfl
+  | (k, v) :: a, b => by simp [writes, writes_append a b]
+
 end GridSearch
 end Compass
